@@ -2,6 +2,7 @@ package main
 
 import (
 	"fmt"
+	"runtime/debug"
 	"os"
 	"strconv"
 	"go/token"
@@ -173,7 +174,10 @@ func (e *Engine) mkInt(s string, hasB bool, lo, hi int64) *Term {
 }
 
 func (e *Engine) assume(c Value) {
-	if _, sym := c.(*Term); sym {
+	// Assumptions made by pre-state generators (forcing > 0) only describe which pre-states are valid; a genuine
+	// counterexample satisfies them anyway, so the batch is not flushed there (and must not be: completing the
+	// pre-state from inside a half-expanded thunk would re-enter its generator).
+	if _, sym := c.(*Term); sym && e.forcing == 0 {
 		e.flush()
 	}
 	switch c := c.(type) {
@@ -388,6 +392,9 @@ func (e *Engine) failAt(kind, label, site, negCond string) {
 		return
 	}
 	e.failSeq++
+	if os.Getenv("GOSYM_DEBUG") != "" {
+		fmt.Fprintf(os.Stderr, "failAt #%d (real %d) %s %q at %s pos=%d/%d\n", e.failSeq, e.realSeq, kind, label, site, e.pos, len(e.dec))
+	}
 	if !e.solver.check(negCond) {
 		return
 	}
@@ -519,6 +526,10 @@ func (e *Engine) flush() {
 }
 
 func (e *Engine) goPanic(msg string) {
+	if os.Getenv("GOSYM_DEBUG") == "2" {
+		fmt.Fprintf(os.Stderr, "goPanic %q complete=%v forcing=%d\n", msg, e.complete, e.forcing)
+		debug.PrintStack()
+	}
 	panic(PanicEvt{Msg: msg, Site: e.site()})
 }
 
